@@ -236,16 +236,16 @@ Lemma log_nice_core b emin emax o l (mvlo mvhi : bool) a c : 2 <= b -> (0 < emin
   mvlo = log_end_ok b (2 ^ l) f nmn && Qleb nmn emin ->
   mvhi = log_end_ok b (2 ^ l) la nmx && Qleb emax nmx ->
   a = (if mvlo then nmn else emin) -> c = (if mvhi then nmx else emax) ->
-  (mvlo = false -> near emin (qpow b (ceil_log b emin)) (emax / emin) (log_mu emin emax) = N_inside) ->
-  (mvhi = false -> near (qpow b (floor_log b emax)) emax (emax / emin) (log_mu emin emax) = N_inside) ->
-  (mvlo = false -> near emin (qpow b (ceil_log b emin)) (c / a) (log_mu a c) <> N_border) ->
-  (mvhi = false -> near (qpow b (floor_log b emax)) emax (c / a) (log_mu a c) <> N_border) ->
+  (mvlo = false -> isin3 (near emin (qpow b (ceil_log b emin)) (c / a) (log_mu a c)) =
+                   isin3 (near emin (qpow b (ceil_log b emin)) (emax / emin) (log_mu emin emax))) ->
+  (mvhi = false -> isin3 (near (qpow b (floor_log b emax)) emax (c / a) (log_mu a c)) =
+                   isin3 (near (qpow b (floor_log b emax)) emax (emax / emin) (log_mu emin emax))) ->
   let e' := log_exps b a c in
   ((0 < a)%Q /\ (a <= emin)%Q /\ (emax <= c)%Q) /\
   (f * 2 ^ l <= le_out_lo e' <= le_out_lo e /\ le_out_hi e <= le_out_hi e' <= la * 2 ^ l) /\
   log_nice b emin emax o = (a, c) /\ log_nice b a c o = (a, c).
 Proof.
-  intros Hb P Lt e Hlh H0 Hmax Hl f la Hcnt nmn nmx Elo Ehi Ea Ec Ilo Ihi Blo Bhi e'.
+  intros Hb P Lt e Hlh H0 Hmax Hl f la Hcnt nmn nmx Elo Ehi Ea Ec Klo Khi e'.
   pose proof (level_nonneg e o l Hlh H0 Hmax Hl) as Ln. pose proof (pow2_pos l Ln) as K.
   destruct (f_la e o l Hlh H0 Hmax Hl) as (Ef & Ela & Flt). fold f la in Ef, Ela, Flt.
   assert (Fk : f * 2 ^ l <= le_out_lo e) by (apply fdiv_iff; [exact K | lia]).
@@ -261,13 +261,11 @@ Proof.
   assert (Hlo' : f * 2 ^ l <= le_out_lo e' <= le_out_lo e).
   { unfold e'. destruct mvlo; subst a.
     - unfold nmn. rewrite out_lo_pow by exact Hb. lia.
-    - specialize (Ilo eq_refl). pose proof (out_lo_keep b emin emax c Hb P Lt Cc Ilo (Blo eq_refl)) as N3.
-      rewrite log_exps_out_lo, N3. unfold e in Fk |- *. rewrite log_exps_out_lo, Ilo in Fk |- *. cbn [isin3] in *. lia. }
+    - specialize (Klo eq_refl). rewrite log_exps_out_lo, Klo. unfold e in Fk |- *. rewrite log_exps_out_lo in Fk |- *. lia. }
   assert (Hhi' : le_out_hi e <= le_out_hi e' <= la * 2 ^ l).
   { unfold e'. destruct mvhi; subst c.
     - unfold nmx. rewrite out_hi_pow by exact Hb. lia.
-    - specialize (Ihi eq_refl). pose proof (out_hi_keep b emin emax a Hb Pa La Lt Ihi (Bhi eq_refl)) as N4.
-      rewrite log_exps_out_hi, N4. unfold e in Lk |- *. rewrite log_exps_out_hi, Ihi in Lk |- *. cbn [isin3] in *. lia. }
+    - specialize (Khi eq_refl). rewrite log_exps_out_hi, Khi. unfold e in Lk |- *. rewrite log_exps_out_hi in Lk |- *. lia. }
   assert (H0' : log_count e' true 0 <= MAXINT).
   { unfold log_count, log_first_last. cbn [Z.ltb Z.compare]. change (2 ^ 0) with 1.
     rewrite Z.div_1_r. unfold cdiv. rewrite Z.div_1_r. lia. }
@@ -289,6 +287,43 @@ Proof.
     + destruct mvhi; subst c.
       * match goal with |- (if ?x then _ else _) = _ => destruct x end; reflexivity.
       * rewrite <- Ehi. reflexivity.
+Qed.
+
+Lemma log_nice_core_inside b emin emax o l (mvlo mvhi : bool) a c : 2 <= b -> (0 < emin)%Q -> (emin < emax)%Q ->
+  let e := log_exps b emin emax in
+  le_out_lo e < le_out_hi e -> log_count e true 0 <= MAXINT -> o_max o < MAXINT ->
+  find_level o (log_count e true) 0 = FL_ok l ->
+  let f := fst (log_first_last e true l) in let la := snd (log_first_last e true l) in
+  (la * 2 ^ l - f * 2 ^ l + 1 <= MAXINT) ->
+  let nmn := qpow b (f * 2 ^ l) in let nmx := qpow b (la * 2 ^ l) in
+  mvlo = log_end_ok b (2 ^ l) f nmn && Qleb nmn emin ->
+  mvhi = log_end_ok b (2 ^ l) la nmx && Qleb emax nmx ->
+  a = (if mvlo then nmn else emin) -> c = (if mvhi then nmx else emax) ->
+  (mvlo = false -> near emin (qpow b (ceil_log b emin)) (emax / emin) (log_mu emin emax) = N_inside) ->
+  (mvhi = false -> near (qpow b (floor_log b emax)) emax (emax / emin) (log_mu emin emax) = N_inside) ->
+  (mvlo = false -> near emin (qpow b (ceil_log b emin)) (c / a) (log_mu a c) <> N_border) ->
+  (mvhi = false -> near (qpow b (floor_log b emax)) emax (c / a) (log_mu a c) <> N_border) ->
+  let e' := log_exps b a c in
+  ((0 < a)%Q /\ (a <= emin)%Q /\ (emax <= c)%Q) /\
+  (f * 2 ^ l <= le_out_lo e' <= le_out_lo e /\ le_out_hi e <= le_out_hi e' <= la * 2 ^ l) /\
+  log_nice b emin emax o = (a, c) /\ log_nice b a c o = (a, c).
+Proof.
+  intros Hb P Lt e Hlh H0 Hmax Hl f la Hcnt nmn nmx Elo Ehi Ea Ec Ilo Ihi Blo Bhi.
+  pose proof (qpow_pos b (f * 2 ^ l) ltac:(lia)) as Pn. fold nmn in Pn.
+  assert (Aa : (0 < a)%Q /\ (a <= emin)%Q).
+  { destruct mvlo; subst a; [|split; lra]. symmetry in Elo. apply andb_true_iff in Elo. destruct Elo as [_ Q1].
+    gb_bool. split; lra. }
+  assert (Cc : (emax <= c)%Q).
+  { destruct mvhi; subst c; [|lra]. symmetry in Ehi. apply andb_true_iff in Ehi. destruct Ehi as [_ Q1].
+    gb_bool. exact Q1. }
+  destruct Aa as [Pa La].
+  apply (log_nice_core b emin emax o l mvlo mvhi a c Hb P Lt Hlh H0 Hmax Hl Hcnt Elo Ehi Ea Ec).
+  - intros M. specialize (Ilo M). specialize (Blo M).
+    assert (Ea' : a = emin) by (rewrite Ea, M; reflexivity). rewrite Ea' in Blo |- *.
+    rewrite Ilo, (out_lo_keep b emin emax c Hb P Lt Cc Ilo Blo). reflexivity.
+  - intros M. specialize (Ihi M). specialize (Bhi M).
+    assert (Ec' : c = emax) by (rewrite Ec, M; reflexivity). rewrite Ec' in Bhi |- *.
+    rewrite Ihi, (out_hi_keep b emin emax a Hb Pa La Lt Ihi Bhi). reflexivity.
 Qed.
 
 (* ---------- the ticks of a domain whose admitted exponents are [f 2^l, la 2^l] ---------- *)
@@ -395,7 +430,7 @@ Lemma log_ticks_core b emin emax o l (mvlo mvhi : bool) a c major minor : 2 <= b
   (mvhi = false -> near nmx c (c / a) (log_mu a c) = N_inside).
 Proof.
   intros Hb P Lt e Hlh H0 Hmax Hl f la Hcnt nmn nmx Elo Ehi Ea Ec Ilo Ihi Blo Bhi Slo Shi HT.
-  destruct (log_nice_core b emin emax o l mvlo mvhi a c Hb P Lt Hlh H0 Hmax Hl Hcnt Elo Ehi Ea Ec Ilo Ihi Blo Bhi)
+  destruct (log_nice_core_inside b emin emax o l mvlo mvhi a c Hb P Lt Hlh H0 Hmax Hl Hcnt Elo Ehi Ea Ec Ilo Ihi Blo Bhi)
     as ((Pa & La & Cc) & _ & _ & _).
   pose proof (level_nonneg e o l Hlh H0 Hmax Hl) as Ln. pose proof (pow2_pos l Ln) as K.
   destruct (f_la e o l Hlh H0 Hmax Hl) as (Ef & Ela & Flt). fold f la in Ef, Ela, Flt.
@@ -450,7 +485,10 @@ Qed.
        the end itself for an end that moved and the power the end is within the slack of (N_inside
        for the niced domain) for an end left in place.
    Nothing is assumed about an end that moved; with both ends moved this is
-   log_nice_fixed_on_landed_ends / log_ticks_on_landed_ends. *)
+   log_nice_fixed_on_landed_ends / log_ticks_on_landed_ends.  Last conjunct: for idempotence alone
+   it is enough that the rounding-out decision of every unmoved end selects the same exponent for
+   the niced domain, whatever it was (this also covers an end left in place because its candidate
+   power is not a positive finite float64, as long as its decision stays 'not inside'). *)
 Theorem log_nice_idempotent_with_unmoved_end b emin emax o l : 2 <= b -> (0 < emin)%Q -> (emin < emax)%Q ->
   let e := log_exps b emin emax in
   le_out_lo e < le_out_hi e -> log_count e true 0 <= MAXINT -> o_max o < MAXINT ->
@@ -475,14 +513,21 @@ Theorem log_nice_idempotent_with_unmoved_end b emin emax o l : 2 <= b -> (0 < em
     (exists rest, major = nmn :: rest) /\ (forall d, last major d = nmx) /\
     (mvlo = true -> a = nmn) /\ (mvhi = true -> c = nmx) /\
     (mvlo = false -> a = emin /\ near a nmn (c / a) (log_mu a c) = N_inside) /\
-    (mvhi = false -> c = emax /\ near nmx c (c / a) (log_mu a c) = N_inside))).
+    (mvhi = false -> c = emax /\ near nmx c (c / a) (log_mu a c) = N_inside))) /\
+  (* idempotence alone: it is enough that the rounding-out decision of each unmoved end selects the
+     same exponent for the niced domain (whatever the decision was) *)
+  ((mvlo = false -> isin3 (near emin (qpow b (ceil_log b emin)) (c / a) (log_mu a c)) =
+                    isin3 (near emin (qpow b (ceil_log b emin)) (emax / emin) (log_mu emin emax))) ->
+   (mvhi = false -> isin3 (near (qpow b (floor_log b emax)) emax (c / a) (log_mu a c)) =
+                    isin3 (near (qpow b (floor_log b emax)) emax (emax / emin) (log_mu emin emax))) ->
+   log_nice b emin emax o = (a, c) /\ log_nice b a c o = (a, c)).
 Proof.
-  intros Hb P Lt e Hlh H0 Hmax Hl f la Hcnt nmn nmx mvlo mvhi a c decided. split.
+  intros Hb P Lt e Hlh H0 Hmax Hl f la Hcnt nmn nmx mvlo mvhi a c decided. split; [|split].
   - intros Amb. destruct (log_exps_amb_false b a c Amb) as (_ & _ & N3 & N4). split.
     + intros M. assert (Ea : a = emin) by (unfold a; rewrite M; reflexivity). rewrite Ea in N3 |- *. exact N3.
     + intros M. assert (Ec : c = emax) by (unfold c; rewrite M; reflexivity). rewrite Ec in N4 |- *. exact N4.
   - intros Ilo Ihi [Blo Bhi].
-    destruct (log_nice_core b emin emax o l mvlo mvhi a c Hb P Lt Hlh H0 Hmax Hl Hcnt eq_refl eq_refl eq_refl eq_refl Ilo Ihi Blo Bhi)
+    destruct (log_nice_core_inside b emin emax o l mvlo mvhi a c Hb P Lt Hlh H0 Hmax Hl Hcnt eq_refl eq_refl eq_refl eq_refl Ilo Ihi Blo Bhi)
       as (_ & _ & N1 & N2).
     split; [exact N1|]. split; [exact N2|]. intros Slo Shi major minor HT.
     destruct (log_ticks_core b emin emax o l mvlo mvhi a c major minor Hb P Lt Hlh H0 Hmax Hl Hcnt eq_refl eq_refl eq_refl eq_refl
@@ -492,4 +537,7 @@ Proof.
     split; intros M.
     + split; [unfold a; rewrite M; reflexivity | exact (R3 M)].
     + split; [unfold c; rewrite M; reflexivity | exact (R4 M)].
+  - intros Klo Khi.
+    destruct (log_nice_core b emin emax o l mvlo mvhi a c Hb P Lt Hlh H0 Hmax Hl Hcnt eq_refl eq_refl eq_refl eq_refl Klo Khi)
+      as (_ & _ & N1 & N2). split; assumption.
 Qed.
